@@ -2,7 +2,7 @@ import Holpy.Common.Sexp
 import Holpy.C12.Model
 /-
 Line protocol of the C12 model (one s-expression in, one out):
-  (run FUEL NAMES FILES LAZY MODS PARSE OPS) -> ((RES (EV ...)) ... ) THY)   one (RES EVs) per op
+  (run FUEL NAMES FILES LAZY MODS PARSE OPS) -> (((RES (EV ...) THY) ...) THY)   one (RES EVs THY-after-the-op) per op
   (spec K NAMES FILES LAZY MODS PARSE n LIM) -> (ok (item ...)) | (error KIND)
 NAMES = (n ...)                     directory listing
 FILES = ((n (import ...) (item ...) mtime) ...)
@@ -100,7 +100,7 @@ def runOps (W : World) (fuel : Nat) : List Op → State → List Sexp → List S
   | [], s, acc => (acc.reverse, s)
   | op :: ops, s, acc =>
     let r := step W fuel op { s with log := [] }
-    runOps W fuel ops r.2 (.list [.atom (errTo r.1), .list (r.2.log.map evTo)] :: acc)
+    runOps W fuel ops r.2 (.list [.atom (errTo r.1), .list (r.2.log.map evTo), thyTo r.2.thy] :: acc)
 
 def setup (names files lazy mods parse : Sexp) : Option (World × List Name × (Name → File)) := do
   let ns ← natsOf names
